@@ -241,3 +241,14 @@ PROPS["C17"] = dict(
     trusted=COMMON_TRUST + ["the driver's independent SpMV/norm at double precision; rounding drift tolerance 1e-6 relative"],
     assumptions=["rounding drift between the recurrence residual and the true residual is outside the theorem (exact arithmetic)"],
 )
+
+PROPS["C14"] = dict(
+    module="RaptorModel.Props.C14",
+    harnesses=["h_c14"],
+    configs=seqpar_configs("h_c14", [1, 2, 3, 4, 7], list(range(1, 17))),
+    rule=("random square matrices with a stored diagonal: M-matrix-like, mixed-sign diagonals, off-diagonals all of the diagonal's sign, arbitrary signs; "
+          "rows with only a diagonal; dyadic values and theta in {0, 1/8, 1/4, 1/2, 3/4, 1}; classical (1..3 interleaved variables) and symmetric; "
+          "layouts incl. empty ranks, standard and node-aware. Non-trivial = more than one unknown."),
+    trusted=COMMON_TRUST + ["dyadic data: every comparison and theta*extreme product is exact in double precision"],
+    assumptions=["|entries| < RAND_MAX (sentinel)"],
+)
